@@ -80,6 +80,31 @@ def drive(tier):
                 history(box["f"], tid, 0, 12 if tier == "quick" else 60, pool_for())
             elif ok:
                 history(box["f"], tid, 0, 3, pool_for())
+    # two filters alive at once, used alternately (no state may leak between objects)
+    for pair in range(3 if tier == "quick" else 30):
+        fa = CBloomFilter(r.choice([3, 10, 50]), r.choice([0.01, 0.001]), r.choice(tweaks), 1)
+        fb = CBloomFilter(r.choice([3, 10, 50]), r.choice([0.01, 0.1]), r.choice(tweaks), 2)
+        ta, tb = R.new_tid(), R.new_tid()
+        ka = kb = 0
+        inter = []
+        for step in range(12 if tier == "quick" else 40):
+            for flt, tid_ in ((fa, ta), (fb, tb)):
+                e = gen.rbytes(r, r.choice([0, 1, 3, 4, 20, 32, 36]))
+                if r.random() < 0.5:
+                    flt.insert(e)
+                    inter.append((tid_, "bloom.insert", {"e": b2l(e)}, dict(proj(flt), k="ret")))
+                else:
+                    inter.append((tid_, "bloom.contains", {"e": b2l(e)}, dict(proj(flt), res=bool(flt.contains(e)), k="ret")))
+        for tid_, flt0 in ((ta, fa), (tb, fb)):
+            kk = 0
+            # the object's history starts from an empty filter of its size
+            R.add("bloom.arrive", {"bytes": b2l(bytes([len(flt0.vData)]) + bytes(len(flt0.vData)) + struct.pack("<IIB", flt0.nHashFuncs, flt0.nTweak, flt0.nFlags)),
+                                   "n": len(flt0.vData)},
+                  {"k": "ret", "data": [0] * len(flt0.vData), "nk": int(flt0.nHashFuncs), "tweak": le(flt0.nTweak, 4), "flags": int(flt0.nFlags)}, tid=tid_, k=0)
+            for t2, op, inp, out in inter:
+                if t2 == tid_:
+                    kk += 1
+                    R.add(op, inp, out, tid=tid_, k=kk)
     # filters arriving from the wire: every data length mod 4 up to 70, zero-length data with any hash count
     arrive = []
     for ln in list(range(0, 71)):
